@@ -80,22 +80,23 @@ CLAIMS.update({
 ADDENDA = {
     "C01": "Added after review/seeding: stripping and the three refusal reasons of _formula_to_parts as obligations, argument forwarding of every helper, the middle-dot hydrate branch, hand-written examples through the real grammar, no state between parses, subscripts of any length (F-C01b fixed).",
     "C02": "Data obligations on the real solvers: 11- and 12-species reactions in the ILP mode, four/eight-decimal and large-denominator compositions, no state between calls, and positivity-feasibility of default-mode answers (known finding F-C02c: two fixed inputs).",
-    "C03": "Added: permuted substance order, MassAction-wrapped constants with `variables`, a system without reactions (F-C03b fixed), array-valued and unit-carrying concentrations (inputs not modified, no shared result objects).",
-    "C04": "Added: names are the substance KEYS (F-C04a fixed), _create_odesys interpreted with the caller's symbols (plain-dict order), constants namespace vs substitutions, active (expression) substitutions, unit registry with named + numeric constants and a second-order step, rebuild after re-assigning a constant; invariants re-derived from the property (none with a feed: F-C05a fixed).",
-    "C05": "Added: the reported vectors against the REAL right-hand side of get_odesys for formula-defined ions; Lean lemma invariant_of_balanced for any numbers of reactions/substances (checked on every run); vectors follow the current substance order; data obligations pin two known findings (F-C05b circular elimination, F-C05c float-exact refusal of a reaction balanced in the decimals as written).",
-    "C06": "Added: the step is as large as safety allows, bounds/rhs are those of the given state (also on a second call), unit-registry input/output callbacks of get_odesys under generic units (same physical value in the requested units), fixed texts to right-hand side.",
+    "C03": "Added: permuted substance order, MassAction-wrapped constants with `variables`, a system without reactions (F-C03b fixed), array-valued and unit-carrying concentrations (inputs not modified, no shared result objects). Round 3: fractional coefficients (Fraction/float) through the five stoichiometry matrices and dCdt_list (data).",
+    "C04": "Added: names are the substance KEYS (F-C04a fixed), _create_odesys interpreted with the caller's symbols (plain-dict order), constants namespace vs substitutions, active (expression) substitutions, unit registry with named + numeric constants and a second-order step, rebuild after re-assigning a constant; invariants re-derived from the property (none with a feed: F-C05a fixed). Round 3: _create_odesys names by key, nested unique keys registered as parameters.",
+    "C05": "Added: the reported vectors against the REAL right-hand side of get_odesys for formula-defined ions; Lean lemma invariant_of_balanced for any numbers of reactions/substances (checked on every run); vectors follow the current substance order; data obligations pin two known findings (F-C05b circular elimination, F-C05c float-exact refusal of a reaction balanced in the decimals as written). Round 3: keys that differ from Substance.name in composition_violation/check messages; a feed given as a (rate, concentrations) pair reports no invariants.",
+    "C06": "Added: the step is as large as safety allows, bounds/rhs are those of the given state (also on a second call), unit-registry input/output callbacks of get_odesys under generic units (same physical value in the requested units), fixed texts to right-hand side. Round 3: a reversible step with inactive participants split by Equilibrium.as_reactions, from text to right-hand side.",
     "C07": "Added: all 12 row-reduction configurations through the sympy path at exact equilibrium states (independent system: pass; linearly dependent equilibria with rref_equil=True: known finding F-C07a), square batches, constants of the current call.",
-    "C08": "Added: _get_rc_interval / equilibrium_residual of the single-equilibrium solver (bracket contains 0, every coordinate inside keeps concentrations non-negative, ends tight; F-C08c fixed), switch condition follows a changed constant, species without elemental bound, nan (F-C08d fixed).",
-    "C09": "Added: scaled dimensionless targets for plain numbers/lists/arrays (F-C09c fixed), rescale (F-C09d fixed), real-package helpers incl. polyfit keywords (F-C09e fixed), Backend with several arguments, registries edited in place; the assumed contract for `quantities` is now validated differentially (1400 seeded random expressions) after it was found to deviate from the package on comparisons with bare numbers.",
-    "C10": "Added: argument dimensions derived from the formulas for every order (F-C10c fixed), end-to-end parameter units and physical rates on the real package in three registries, registry edited in place; known finding F-C10d (wrong-dimension constants wrapped in rate expressions / substitutions are not checked).",
+    "C08": "Added: _get_rc_interval / equilibrium_residual of the single-equilibrium solver (bracket contains 0, every coordinate inside keeps concentrations non-negative, ends tight; F-C08c fixed), switch condition follows a changed constant, species without elemental bound, nan (F-C08d fixed). Round 3: the row-reduced equilibrium equations (rref_equil=True) are the same equations as the plain ones for every pattern of absent solids (exact row-space equality with sympy, data).",
+    "C09": "Added: scaled dimensionless targets for plain numbers/lists/arrays (F-C09c fixed), rescale (F-C09d fixed), real-package helpers incl. polyfit keywords (F-C09e fixed), Backend with several arguments, registries edited in place; the assumed contract for `quantities` is now validated differentially (1400 seeded random expressions) after it was found to deviate from the package on comparisons with bare numbers. Round 3: bare unit objects and object arrays of quantities through Backend, registry human-readable round trip exact for 17-digit factors.",
+    "C10": "Added: argument dimensions derived from the formulas for every order (F-C10c fixed), end-to-end parameter units and physical rates on the real package in three registries, registry edited in place; known finding F-C10d (wrong-dimension constants wrapped in rate expressions / substitutions are not checked). Round 3: wrongly dimensioned values handed in at run time are refused and compatible ones converted; the default standard concentration of a key-only Eyring expression is expressed in the registry unit (rates by hand, three registries, orders 1-3).",
     "C11": "Added: Lean lemmas nu_eq_combination / const_eq_product_of_powers (induction over histories, checked on every run), composed expressions on the real objects incl. a species on both sides of an operand, a non-trivial cancel layout, eliminate for all pairs in [-12,12]^2 in the contract.",
-    "C12": "Added: unknown keys refused for every form of the allowed keys (F-C12c fixed); known finding F-C12b (named reactions/systems do not survive print -> parse).",
-    "C13": "Added: nothing remembered between constructions, arguments (phases) not modified.",
+    "C12": "Added: unknown keys refused for every form of the allowed keys (F-C12c fixed); known finding F-C12b (named reactions/systems do not survive print -> parse). Round 3: a system text is written with the species keys and reads back against the key list; coefficients below one are printed.",
+    "C13": "Added: nothing remembered between constructions, arguments (phases) not modified. Round 3: coefficient 1 omitted and every other coefficient (2, 12, 0.5, 1.5, 1/3) written, three formats, reactions and equilibria.",
     "C14": "Added: no state between masses (shared data dict, the caller's composition mapping: F-C14a fixed, a caller editing a freshly parsed composition).",
     "C15": "Added: fractional coefficients in categorize_substances (data).",
     "C16": "Added: Radiolytic field order as given, values given as arrays/quantities are not modified.",
-    "C17": "Added: numpy time axes are not modified, same curve on a second evaluation, start value with t0.",
-    "C19": "Added: water_density reference temperature T0 (value and warning depend on T - T0); the permittivity silence clause restated from the property.",
+    "C17": "Added: numpy time axes are not modified, same curve on a second evaluation, start value with t0. Round 3: numpy and math backends agree with the 50-digit sympy value from t = 1e-9 to k*t = 1e7 (F-C17d fixed: binary_irrev_cstr overflowed for fv*t > 709).",
+    "C20": "Round 3: a reaction parameter that is a real quantity, also in a scaled pure-number unit (percent, mM/M, g/kg), is printed with magnitude and unit in all four formats (data).",
+    "C19": "Added: water_density reference temperature T0 (value and warning depend on T - T0); the permittivity silence clause restated from the property. Round 3: nernst_potential with a constants object, alone and together with a units object; HenryWithUnits incl. its inverse helper.",
 }
 for _k, _v in ADDENDA.items():
     CLAIMS[_k]["text"] = CLAIMS[_k]["text"] + " " + _v
